@@ -15,6 +15,8 @@ import (
 	"context"
 	"crypto/sha256"
 	"fmt"
+	"os"
+	"path/filepath"
 	"sort"
 	"strings"
 	"testing"
@@ -53,7 +55,8 @@ func vc20pLedger(t *testing.T, name string, accts map[basics.Address]basics.Acco
 	}
 	cfg := config.GetDefaultLocal()
 	cfg.Archival = true
-	l, err := ledger.OpenLedger(logging.Base(), name, true, ledgercore.InitState{Block: initBlock, Accounts: cp, GenesisHash: hash}, cfg)
+	// on disk (tmpfs) rather than in memory: with WAL, readers are never refused while the trackers flush
+	l, err := ledger.OpenLedger(logging.Base(), name, false, ledgercore.InitState{Block: initBlock, Accounts: cp, GenesisHash: hash}, cfg)
 	require.NoError(t, err)
 	return l
 }
@@ -122,8 +125,15 @@ func TestVerifC20Pool(t *testing.T) {
 		copy(hash[:], r.Bytes(32))
 		accts[sink] = basics.AccountData{MicroAlgos: basics.MicroAlgos{Raw: 3_000_000}, Status: basics.NotParticipating}
 		accts[rpool] = basics.AccountData{MicroAlgos: basics.MicroAlgos{Raw: 1 << 40}, Status: basics.NotParticipating}
-		l1 := vc20pLedger(t, fmt.Sprintf("%s_a%d", t.Name(), u), accts, sink, rpool, hash, pv)
-		l2 := vc20pLedger(t, fmt.Sprintf("%s_b%d", t.Name(), u), accts, sink, rpool, hash, pv)
+		base := "/dev/shm"
+		if _, serr := os.Stat(base); serr != nil {
+			base = os.TempDir()
+		}
+		dir, derr := os.MkdirTemp(base, "verif_c20p_")
+		require.NoError(t, derr)
+		defer os.RemoveAll(dir)
+		l1 := vc20pLedger(t, filepath.Join(dir, "a"), accts, sink, rpool, hash, pv)
+		l2 := vc20pLedger(t, filepath.Join(dir, "b"), accts, sink, rpool, hash, pv)
 		cfg := config.GetDefaultLocal()
 		cfg.TxPoolSize = 2000
 		cfg.EnableProcessBlockStats = false
